@@ -24,6 +24,9 @@ States(g)   == 1..g.n
 FinalSet(g) == {g.final[i] : i \in DOMAIN g.final}
 TrIdx(g, s) == DOMAIN g.tr[s]
 Succ(g, s)  == {g.tr[s][k].t : k \in TrIdx(g, s)}
+\* successors that can actually be entered: a probabilistic transition of weight 0 is
+\* never taken (legal, if unusual: a parametrised game instantiated with probability 0)
+SuccP(g, s) == {g.tr[s][k].t : k \in {k \in TrIdx(g, s) : g.owner[s] # PR \/ g.tr[s][k].w > 0}}
 IsPlayer(g, s) == g.owner[s] \in {P1, P2}
 StatesOf(g, o) == {s \in States(g) : g.owner[s] = o}
 
@@ -51,7 +54,7 @@ WellFormed(g) ==
 Proper(g) ==
     /\ WellFormed(g)
     /\ \A s \in 1..g.n : \A k \in DOMAIN g.tr[s] :
-         IF g.owner[s] = PR THEN g.tr[s][k].w >= 1 /\ g.tr[s][k].a = ""
+         IF g.owner[s] = PR THEN g.tr[s][k].w >= 0 /\ TotalW(g, s) >= 1 /\ g.tr[s][k].a = ""
          ELSE /\ g.tr[s][k].a # "" /\ g.tr[s][k].w = 0
               /\ \A j \in DOMAIN g.tr[s] : j # k => g.tr[s][j].a # g.tr[s][k].a
 
@@ -60,7 +63,7 @@ Proper(g) ==
 (* A sink is a state that keeps the play forever and pays nothing: either  *)
 (* its transition list is empty (only possible after conditioning) or all  *)
 (* its transitions are self loops and its reward is 0.                     *)
-Absorbing(g, s) == \A k \in DOMAIN g.tr[s] : g.tr[s][k].t = s
+Absorbing(g, s) == SuccP(g, s) \subseteq {s}
 IsSink(g, s)    == Len(g.tr[s]) = 0 \/ (Absorbing(g, s) /\ g.reward[s] = 0)
 Sinks(g)        == {s \in States(g) : IsSink(g, s)}
 
@@ -70,8 +73,8 @@ Sinks(g)        == {s \in States(g) : IsSink(g, s)}
 RECURSIVE GfpStay(_, _)
 GfpStay(g, X) ==
     LET Y == {s \in X :
-                IF g.owner[s] = PR THEN Succ(g, s) \subseteq X
-                ELSE Succ(g, s) \cap X # {}}
+                IF g.owner[s] = PR THEN SuccP(g, s) \subseteq X
+                ELSE SuccP(g, s) \cap X # {}}
     IN  IF Y = X THEN X ELSE GfpStay(g, Y)
 
 \* Stopping on the sub-arena Dom (closed under successors): every play from
